@@ -29,7 +29,24 @@ package risc
 //@   assigns nothing
 
 //@ func InstructionRunner.InstructionType
-//@   ensures result == insType(self)
+//@   ensures result == insType(self) && result <= Xori
+//@   assigns nothing
+
+// Run / MemoryRead through the interface (used by the unpipelined variants,
+// C12): runPre / readPre are each type's own precondition (generated define
+// lines); callers cannot discharge them for an unknown dynamic type and state
+// them as listed assumptions. sequenceID is 0 on these call paths.
+//@ abstract func memReadCount(self InstructionRunner) int
+//@ abstract func runPre(self InstructionRunner, ctx *Context, memory []int8) bool
+//@ abstract func readPre(self InstructionRunner, ctx *Context) bool
+
+//@ func InstructionRunner.MemoryRead
+//@   requires readPre(self, ctx) && sequenceID == 0
+//@   ensures len(result) == memReadCount(self)
+//@   assigns nothing
+
+//@ func InstructionRunner.Run
+//@   requires runPre(self, ctx, memory) && sequenceID == 0
 //@   assigns nothing
 
 // wfZero: the context reads the zero register as 0 (context invariant
@@ -369,6 +386,27 @@ package risc
 //@   ensures ctx.sequenceID == old(ctx.sequenceID) + 1
 //@   assigns ctx.sequenceID
 
+// Cycles: the per-type execute latency of the documented latency table (C12):
+// 50 cycles for the three loads, 1 for everything else; panics on a value that
+// is not an instruction type.
+//@ func (InstructionType).Cycles
+//@   mode bv
+//@   requires ins <= Xori
+//@   ensures result == ((ins == Lb || ins == Lh || ins == Lw) ? 50 : 1)
+//@   assigns nothing
+
+// WriteMemory applies the stored bytes of an execution to main memory.
+//@ func (*Context).WriteMemory
+//@   mode int
+//@   requires ctx != nil && (forall k int32 :: k in exe.MemoryChanges ==> 0 <= k && int(k) < len(ctx.Memory))
+//@   ensures forall k int32 :: k in exe.MemoryChanges ==> ctx.Memory[k] == exe.MemoryChanges[k]
+//@   ensures forall a :: 0 <= a && a < len(ctx.Memory) && !(int32(a) in exe.MemoryChanges) ==> ctx.Memory[a] == old(ctx.Memory[a])
+//@   ensures ctx.Memory == old(ctx.Memory)
+//@   assigns ctx.Memory[*]
+//@   loop 0: invariant ctx.Memory == old(ctx.Memory)
+//@   loop 0: invariant forall k int32 :: visited(k) ==> k in exe.MemoryChanges && ctx.Memory[k] == exe.MemoryChanges[k]
+//@   loop 0: invariant forall a :: 0 <= a && a < len(ctx.Memory) && !(a <= 2147483647 && visited(int32(a))) ==> ctx.Memory[a] == old(ctx.Memory[a])
+
 // ---------------------------------------------------------------- assembler front end (C11)
 // Strings are abstract values with a length, a byte-at and a substring
 // observer; the trusted contracts below state the only facts about the Go
@@ -491,6 +529,9 @@ package risc
 //@ define readCount(self *add, r RegisterType) = (self.rs1 == r ? 1 : 0) + (self.rs2 == r ? 1 : 0)
 //@ define writeCount(self *add, r RegisterType) = (self.rd == r ? 1 : 0)
 //@ define insType(self *add) = Add
+//@ define memReadCount(self *add) = 0
+//@ define runPre(self *add, ctx *Context, memory []int8) = wfZero(ctx, self.forward)
+//@ define readPre(self *add, ctx *Context) = true
 //@ func (*add).ReadRegisters
 //@   ensures len(result) == 2 && ((result[0] == op.rs1 && result[1] == op.rs2) || (result[0] == op.rs2 && result[1] == op.rs1))
 //@   assigns nothing
@@ -521,6 +562,9 @@ package risc
 //@ define readCount(self *addi, r RegisterType) = (self.rs == r ? 1 : 0)
 //@ define writeCount(self *addi, r RegisterType) = (self.rd == r ? 1 : 0)
 //@ define insType(self *addi) = Addi
+//@ define memReadCount(self *addi) = 0
+//@ define runPre(self *addi, ctx *Context, memory []int8) = wfZero(ctx, self.forward)
+//@ define readPre(self *addi, ctx *Context) = true
 //@ func (*addi).ReadRegisters
 //@   ensures len(result) == 1 && result[0] == op.rs
 //@   assigns nothing
@@ -551,6 +595,9 @@ package risc
 //@ define readCount(self *and, r RegisterType) = (self.rs1 == r ? 1 : 0) + (self.rs2 == r ? 1 : 0)
 //@ define writeCount(self *and, r RegisterType) = (self.rd == r ? 1 : 0)
 //@ define insType(self *and) = And
+//@ define memReadCount(self *and) = 0
+//@ define runPre(self *and, ctx *Context, memory []int8) = wfZero(ctx, self.forward)
+//@ define readPre(self *and, ctx *Context) = true
 //@ func (*and).ReadRegisters
 //@   ensures len(result) == 2 && ((result[0] == op.rs1 && result[1] == op.rs2) || (result[0] == op.rs2 && result[1] == op.rs1))
 //@   assigns nothing
@@ -581,6 +628,9 @@ package risc
 //@ define readCount(self *andi, r RegisterType) = (self.rs == r ? 1 : 0)
 //@ define writeCount(self *andi, r RegisterType) = (self.rd == r ? 1 : 0)
 //@ define insType(self *andi) = Andi
+//@ define memReadCount(self *andi) = 0
+//@ define runPre(self *andi, ctx *Context, memory []int8) = wfZero(ctx, self.forward)
+//@ define readPre(self *andi, ctx *Context) = true
 //@ func (*andi).ReadRegisters
 //@   ensures len(result) == 1 && result[0] == op.rs
 //@   assigns nothing
@@ -610,6 +660,9 @@ package risc
 //@ define readCount(self *auipc, r RegisterType) = 0
 //@ define writeCount(self *auipc, r RegisterType) = (self.rd == r ? 1 : 0)
 //@ define insType(self *auipc) = Auipc
+//@ define memReadCount(self *auipc) = 0
+//@ define runPre(self *auipc, ctx *Context, memory []int8) = true
+//@ define readPre(self *auipc, ctx *Context) = true
 //@ func (*auipc).ReadRegisters
 //@   ensures len(result) == 0
 //@   assigns nothing
@@ -639,6 +692,9 @@ package risc
 //@ define readCount(self *beq, r RegisterType) = (self.rs1 == r ? 1 : 0) + (self.rs2 == r ? 1 : 0)
 //@ define writeCount(self *beq, r RegisterType) = 0
 //@ define insType(self *beq) = Beq
+//@ define memReadCount(self *beq) = 0
+//@ define runPre(self *beq, ctx *Context, memory []int8) = wfZero(ctx, self.forward)
+//@ define readPre(self *beq, ctx *Context) = true
 //@ func (*beq).ReadRegisters
 //@   ensures len(result) == 2 && ((result[0] == op.rs1 && result[1] == op.rs2) || (result[0] == op.rs2 && result[1] == op.rs1))
 //@   assigns nothing
@@ -669,6 +725,9 @@ package risc
 //@ define readCount(self *beqz, r RegisterType) = (self.rs == r ? 1 : 0)
 //@ define writeCount(self *beqz, r RegisterType) = 0
 //@ define insType(self *beqz) = Beqz
+//@ define memReadCount(self *beqz) = 0
+//@ define runPre(self *beqz, ctx *Context, memory []int8) = wfZero(ctx, self.forward)
+//@ define readPre(self *beqz, ctx *Context) = true
 //@ func (*beqz).ReadRegisters
 //@   ensures len(result) == 1 && result[0] == op.rs
 //@   assigns nothing
@@ -699,6 +758,9 @@ package risc
 //@ define readCount(self *bge, r RegisterType) = (self.rs1 == r ? 1 : 0) + (self.rs2 == r ? 1 : 0)
 //@ define writeCount(self *bge, r RegisterType) = 0
 //@ define insType(self *bge) = Bge
+//@ define memReadCount(self *bge) = 0
+//@ define runPre(self *bge, ctx *Context, memory []int8) = wfZero(ctx, self.forward)
+//@ define readPre(self *bge, ctx *Context) = true
 //@ func (*bge).ReadRegisters
 //@   ensures len(result) == 2 && ((result[0] == op.rs1 && result[1] == op.rs2) || (result[0] == op.rs2 && result[1] == op.rs1))
 //@   assigns nothing
@@ -729,6 +791,9 @@ package risc
 //@ define readCount(self *bgeu, r RegisterType) = (self.rs1 == r ? 1 : 0) + (self.rs2 == r ? 1 : 0)
 //@ define writeCount(self *bgeu, r RegisterType) = 0
 //@ define insType(self *bgeu) = Bgeu
+//@ define memReadCount(self *bgeu) = 0
+//@ define runPre(self *bgeu, ctx *Context, memory []int8) = wfZero(ctx, self.forward)
+//@ define readPre(self *bgeu, ctx *Context) = true
 //@ func (*bgeu).ReadRegisters
 //@   ensures len(result) == 2 && ((result[0] == op.rs1 && result[1] == op.rs2) || (result[0] == op.rs2 && result[1] == op.rs1))
 //@   assigns nothing
@@ -759,6 +824,9 @@ package risc
 //@ define readCount(self *ble, r RegisterType) = (self.rs1 == r ? 1 : 0) + (self.rs2 == r ? 1 : 0)
 //@ define writeCount(self *ble, r RegisterType) = 0
 //@ define insType(self *ble) = Ble
+//@ define memReadCount(self *ble) = 0
+//@ define runPre(self *ble, ctx *Context, memory []int8) = wfZero(ctx, self.forward)
+//@ define readPre(self *ble, ctx *Context) = true
 //@ func (*ble).ReadRegisters
 //@   ensures len(result) == 2 && ((result[0] == op.rs1 && result[1] == op.rs2) || (result[0] == op.rs2 && result[1] == op.rs1))
 //@   assigns nothing
@@ -789,6 +857,9 @@ package risc
 //@ define readCount(self *blt, r RegisterType) = (self.rs1 == r ? 1 : 0) + (self.rs2 == r ? 1 : 0)
 //@ define writeCount(self *blt, r RegisterType) = 0
 //@ define insType(self *blt) = Blt
+//@ define memReadCount(self *blt) = 0
+//@ define runPre(self *blt, ctx *Context, memory []int8) = wfZero(ctx, self.forward)
+//@ define readPre(self *blt, ctx *Context) = true
 //@ func (*blt).ReadRegisters
 //@   ensures len(result) == 2 && ((result[0] == op.rs1 && result[1] == op.rs2) || (result[0] == op.rs2 && result[1] == op.rs1))
 //@   assigns nothing
@@ -819,6 +890,9 @@ package risc
 //@ define readCount(self *bltu, r RegisterType) = (self.rs1 == r ? 1 : 0) + (self.rs2 == r ? 1 : 0)
 //@ define writeCount(self *bltu, r RegisterType) = 0
 //@ define insType(self *bltu) = Bltu
+//@ define memReadCount(self *bltu) = 0
+//@ define runPre(self *bltu, ctx *Context, memory []int8) = wfZero(ctx, self.forward)
+//@ define readPre(self *bltu, ctx *Context) = true
 //@ func (*bltu).ReadRegisters
 //@   ensures len(result) == 2 && ((result[0] == op.rs1 && result[1] == op.rs2) || (result[0] == op.rs2 && result[1] == op.rs1))
 //@   assigns nothing
@@ -849,6 +923,9 @@ package risc
 //@ define readCount(self *bne, r RegisterType) = (self.rs1 == r ? 1 : 0) + (self.rs2 == r ? 1 : 0)
 //@ define writeCount(self *bne, r RegisterType) = 0
 //@ define insType(self *bne) = Bne
+//@ define memReadCount(self *bne) = 0
+//@ define runPre(self *bne, ctx *Context, memory []int8) = wfZero(ctx, self.forward)
+//@ define readPre(self *bne, ctx *Context) = true
 //@ func (*bne).ReadRegisters
 //@   ensures len(result) == 2 && ((result[0] == op.rs1 && result[1] == op.rs2) || (result[0] == op.rs2 && result[1] == op.rs1))
 //@   assigns nothing
@@ -879,6 +956,9 @@ package risc
 //@ define readCount(self *bnez, r RegisterType) = (self.rs == r ? 1 : 0)
 //@ define writeCount(self *bnez, r RegisterType) = 0
 //@ define insType(self *bnez) = Bnez
+//@ define memReadCount(self *bnez) = 0
+//@ define runPre(self *bnez, ctx *Context, memory []int8) = wfZero(ctx, self.forward)
+//@ define readPre(self *bnez, ctx *Context) = true
 //@ func (*bnez).ReadRegisters
 //@   ensures len(result) == 1 && result[0] == op.rs
 //@   assigns nothing
@@ -909,6 +989,9 @@ package risc
 //@ define readCount(self *div, r RegisterType) = (self.rs1 == r ? 1 : 0) + (self.rs2 == r ? 1 : 0)
 //@ define writeCount(self *div, r RegisterType) = (self.rd == r ? 1 : 0)
 //@ define insType(self *div) = Div
+//@ define memReadCount(self *div) = 0
+//@ define runPre(self *div, ctx *Context, memory []int8) = wfZero(ctx, self.forward)
+//@ define readPre(self *div, ctx *Context) = true
 //@ func (*div).ReadRegisters
 //@   ensures len(result) == 2 && ((result[0] == op.rs1 && result[1] == op.rs2) || (result[0] == op.rs2 && result[1] == op.rs1))
 //@   assigns nothing
@@ -938,6 +1021,9 @@ package risc
 //@ define readCount(self *j, r RegisterType) = 0
 //@ define writeCount(self *j, r RegisterType) = 0
 //@ define insType(self *j) = J
+//@ define memReadCount(self *j) = 0
+//@ define runPre(self *j, ctx *Context, memory []int8) = true
+//@ define readPre(self *j, ctx *Context) = true
 //@ func (*j).ReadRegisters
 //@   ensures len(result) == 0
 //@   assigns nothing
@@ -968,6 +1054,9 @@ package risc
 //@ define readCount(self *jal, r RegisterType) = 0
 //@ define writeCount(self *jal, r RegisterType) = (self.rd == r ? 1 : 0)
 //@ define insType(self *jal) = Jal
+//@ define memReadCount(self *jal) = 0
+//@ define runPre(self *jal, ctx *Context, memory []int8) = ctx != nil
+//@ define readPre(self *jal, ctx *Context) = true
 //@ func (*jal).ReadRegisters
 //@   ensures len(result) == 0
 //@   assigns nothing
@@ -1000,6 +1089,9 @@ package risc
 //@ define readCount(self *jalr, r RegisterType) = (self.rs == r ? 1 : 0)
 //@ define writeCount(self *jalr, r RegisterType) = (self.rd == r ? 1 : 0)
 //@ define insType(self *jalr) = Jalr
+//@ define memReadCount(self *jalr) = 0
+//@ define runPre(self *jalr, ctx *Context, memory []int8) = wfZero(ctx, self.forward) && ((registerRead(ctx, self.forward, self.rs, 0) + self.imm) & 1) == 0
+//@ define readPre(self *jalr, ctx *Context) = true
 //@ func (*jalr).ReadRegisters
 //@   ensures len(result) == 1 && result[0] == op.rs
 //@   assigns nothing
@@ -1031,6 +1123,9 @@ package risc
 //@ define readCount(self *lb, r RegisterType) = (self.rs == r ? 1 : 0)
 //@ define writeCount(self *lb, r RegisterType) = (self.rd == r ? 1 : 0)
 //@ define insType(self *lb) = Lb
+//@ define memReadCount(self *lb) = 1
+//@ define runPre(self *lb, ctx *Context, memory []int8) = ctx != nil && len(memory) >= 1
+//@ define readPre(self *lb, ctx *Context) = wfZero(ctx, self.forward)
 //@ func (*lb).ReadRegisters
 //@   ensures len(result) == 1 && result[0] == op.rs
 //@   assigns nothing
@@ -1064,6 +1159,9 @@ package risc
 //@ define readCount(self *lh, r RegisterType) = (self.rs == r ? 1 : 0)
 //@ define writeCount(self *lh, r RegisterType) = (self.rd == r ? 1 : 0)
 //@ define insType(self *lh) = Lh
+//@ define memReadCount(self *lh) = 2
+//@ define runPre(self *lh, ctx *Context, memory []int8) = ctx != nil && len(memory) >= 2
+//@ define readPre(self *lh, ctx *Context) = wfZero(ctx, self.forward)
 //@ func (*lh).ReadRegisters
 //@   ensures len(result) == 1 && result[0] == op.rs
 //@   assigns nothing
@@ -1096,6 +1194,9 @@ package risc
 //@ define readCount(self *li, r RegisterType) = 0
 //@ define writeCount(self *li, r RegisterType) = (self.rd == r ? 1 : 0)
 //@ define insType(self *li) = Li
+//@ define memReadCount(self *li) = 0
+//@ define runPre(self *li, ctx *Context, memory []int8) = true
+//@ define readPre(self *li, ctx *Context) = true
 //@ func (*li).ReadRegisters
 //@   ensures len(result) == 0
 //@   assigns nothing
@@ -1124,6 +1225,9 @@ package risc
 //@ define readCount(self *lui, r RegisterType) = 0
 //@ define writeCount(self *lui, r RegisterType) = (self.rd == r ? 1 : 0)
 //@ define insType(self *lui) = Lui
+//@ define memReadCount(self *lui) = 0
+//@ define runPre(self *lui, ctx *Context, memory []int8) = true
+//@ define readPre(self *lui, ctx *Context) = true
 //@ func (*lui).ReadRegisters
 //@   ensures len(result) == 0
 //@   assigns nothing
@@ -1154,6 +1258,9 @@ package risc
 //@ define readCount(self *lw, r RegisterType) = (self.rs == r ? 1 : 0)
 //@ define writeCount(self *lw, r RegisterType) = (self.rd == r ? 1 : 0)
 //@ define insType(self *lw) = Lw
+//@ define memReadCount(self *lw) = 4
+//@ define runPre(self *lw, ctx *Context, memory []int8) = ctx != nil && len(memory) >= 4
+//@ define readPre(self *lw, ctx *Context) = wfZero(ctx, self.forward)
 //@ func (*lw).ReadRegisters
 //@   ensures len(result) == 1 && result[0] == op.rs
 //@   assigns nothing
@@ -1189,6 +1296,9 @@ package risc
 //@ define readCount(self *mul, r RegisterType) = (self.rs1 == r ? 1 : 0) + (self.rs2 == r ? 1 : 0)
 //@ define writeCount(self *mul, r RegisterType) = (self.rd == r ? 1 : 0)
 //@ define insType(self *mul) = Mul
+//@ define memReadCount(self *mul) = 0
+//@ define runPre(self *mul, ctx *Context, memory []int8) = wfZero(ctx, self.forward)
+//@ define readPre(self *mul, ctx *Context) = true
 //@ func (*mul).ReadRegisters
 //@   ensures len(result) == 2 && ((result[0] == op.rs1 && result[1] == op.rs2) || (result[0] == op.rs2 && result[1] == op.rs1))
 //@   assigns nothing
@@ -1219,6 +1329,9 @@ package risc
 //@ define readCount(self *mv, r RegisterType) = (self.rs == r ? 1 : 0)
 //@ define writeCount(self *mv, r RegisterType) = (self.rd == r ? 1 : 0)
 //@ define insType(self *mv) = Mv
+//@ define memReadCount(self *mv) = 0
+//@ define runPre(self *mv, ctx *Context, memory []int8) = wfZero(ctx, self.forward)
+//@ define readPre(self *mv, ctx *Context) = true
 //@ func (*mv).ReadRegisters
 //@   ensures len(result) == 1 && result[0] == op.rs
 //@   assigns nothing
@@ -1246,6 +1359,9 @@ package risc
 //@ define readCount(self *nop, r RegisterType) = 0
 //@ define writeCount(self *nop, r RegisterType) = 0
 //@ define insType(self *nop) = Nop
+//@ define memReadCount(self *nop) = 0
+//@ define runPre(self *nop, ctx *Context, memory []int8) = true
+//@ define readPre(self *nop, ctx *Context) = true
 //@ func (*nop).ReadRegisters
 //@   ensures len(result) == 0
 //@   assigns nothing
@@ -1275,6 +1391,9 @@ package risc
 //@ define readCount(self *or, r RegisterType) = (self.rs1 == r ? 1 : 0) + (self.rs2 == r ? 1 : 0)
 //@ define writeCount(self *or, r RegisterType) = (self.rd == r ? 1 : 0)
 //@ define insType(self *or) = Or
+//@ define memReadCount(self *or) = 0
+//@ define runPre(self *or, ctx *Context, memory []int8) = wfZero(ctx, self.forward)
+//@ define readPre(self *or, ctx *Context) = true
 //@ func (*or).ReadRegisters
 //@   ensures len(result) == 2 && ((result[0] == op.rs1 && result[1] == op.rs2) || (result[0] == op.rs2 && result[1] == op.rs1))
 //@   assigns nothing
@@ -1305,6 +1424,9 @@ package risc
 //@ define readCount(self *ori, r RegisterType) = (self.rs == r ? 1 : 0)
 //@ define writeCount(self *ori, r RegisterType) = (self.rd == r ? 1 : 0)
 //@ define insType(self *ori) = Ori
+//@ define memReadCount(self *ori) = 0
+//@ define runPre(self *ori, ctx *Context, memory []int8) = wfZero(ctx, self.forward)
+//@ define readPre(self *ori, ctx *Context) = true
 //@ func (*ori).ReadRegisters
 //@   ensures len(result) == 1 && result[0] == op.rs
 //@   assigns nothing
@@ -1335,6 +1457,9 @@ package risc
 //@ define readCount(self *rem, r RegisterType) = (self.rs1 == r ? 1 : 0) + (self.rs2 == r ? 1 : 0)
 //@ define writeCount(self *rem, r RegisterType) = (self.rd == r ? 1 : 0)
 //@ define insType(self *rem) = Rem
+//@ define memReadCount(self *rem) = 0
+//@ define runPre(self *rem, ctx *Context, memory []int8) = wfZero(ctx, self.forward)
+//@ define readPre(self *rem, ctx *Context) = true
 //@ func (*rem).ReadRegisters
 //@   ensures len(result) == 2 && ((result[0] == op.rs1 && result[1] == op.rs2) || (result[0] == op.rs2 && result[1] == op.rs1))
 //@   assigns nothing
@@ -1362,6 +1487,9 @@ package risc
 //@ define readCount(self *ret, r RegisterType) = 0
 //@ define writeCount(self *ret, r RegisterType) = 0
 //@ define insType(self *ret) = Ret
+//@ define memReadCount(self *ret) = 0
+//@ define runPre(self *ret, ctx *Context, memory []int8) = true
+//@ define readPre(self *ret, ctx *Context) = true
 //@ func (*ret).ReadRegisters
 //@   ensures len(result) == 0
 //@   assigns nothing
@@ -1392,6 +1520,9 @@ package risc
 //@ define readCount(self *sb, r RegisterType) = (self.rd == r ? 1 : 0) + (self.rs == r ? 1 : 0)
 //@ define writeCount(self *sb, r RegisterType) = 0
 //@ define insType(self *sb) = Sb
+//@ define memReadCount(self *sb) = 0
+//@ define runPre(self *sb, ctx *Context, memory []int8) = wfZero(ctx, self.forward)
+//@ define readPre(self *sb, ctx *Context) = true
 //@ func (*sb).ReadRegisters
 //@   ensures len(result) == 2 && ((result[0] == op.rd && result[1] == op.rs) || (result[0] == op.rs && result[1] == op.rd))
 //@   assigns nothing
@@ -1426,6 +1557,9 @@ package risc
 //@ define readCount(self *sh, r RegisterType) = (self.rd == r ? 1 : 0) + (self.rs == r ? 1 : 0)
 //@ define writeCount(self *sh, r RegisterType) = 0
 //@ define insType(self *sh) = Sh
+//@ define memReadCount(self *sh) = 0
+//@ define runPre(self *sh, ctx *Context, memory []int8) = wfZero(ctx, self.forward)
+//@ define readPre(self *sh, ctx *Context) = true
 //@ func (*sh).ReadRegisters
 //@   ensures len(result) == 2 && ((result[0] == op.rd && result[1] == op.rs) || (result[0] == op.rs && result[1] == op.rd))
 //@   assigns nothing
@@ -1459,6 +1593,9 @@ package risc
 //@ define readCount(self *sll, r RegisterType) = (self.rs1 == r ? 1 : 0) + (self.rs2 == r ? 1 : 0)
 //@ define writeCount(self *sll, r RegisterType) = (self.rd == r ? 1 : 0)
 //@ define insType(self *sll) = Sll
+//@ define memReadCount(self *sll) = 0
+//@ define runPre(self *sll, ctx *Context, memory []int8) = wfZero(ctx, self.forward)
+//@ define readPre(self *sll, ctx *Context) = true
 //@ func (*sll).ReadRegisters
 //@   ensures len(result) == 2 && ((result[0] == op.rs1 && result[1] == op.rs2) || (result[0] == op.rs2 && result[1] == op.rs1))
 //@   assigns nothing
@@ -1489,6 +1626,9 @@ package risc
 //@ define readCount(self *slli, r RegisterType) = (self.rs == r ? 1 : 0)
 //@ define writeCount(self *slli, r RegisterType) = (self.rd == r ? 1 : 0)
 //@ define insType(self *slli) = Slli
+//@ define memReadCount(self *slli) = 0
+//@ define runPre(self *slli, ctx *Context, memory []int8) = wfZero(ctx, self.forward)
+//@ define readPre(self *slli, ctx *Context) = true
 //@ func (*slli).ReadRegisters
 //@   ensures len(result) == 1 && result[0] == op.rs
 //@   assigns nothing
@@ -1519,6 +1659,9 @@ package risc
 //@ define readCount(self *slt, r RegisterType) = (self.rs1 == r ? 1 : 0) + (self.rs2 == r ? 1 : 0)
 //@ define writeCount(self *slt, r RegisterType) = (self.rd == r ? 1 : 0)
 //@ define insType(self *slt) = Slt
+//@ define memReadCount(self *slt) = 0
+//@ define runPre(self *slt, ctx *Context, memory []int8) = wfZero(ctx, self.forward)
+//@ define readPre(self *slt, ctx *Context) = true
 //@ func (*slt).ReadRegisters
 //@   ensures len(result) == 2 && ((result[0] == op.rs1 && result[1] == op.rs2) || (result[0] == op.rs2 && result[1] == op.rs1))
 //@   assigns nothing
@@ -1549,6 +1692,9 @@ package risc
 //@ define readCount(self *slti, r RegisterType) = (self.rs == r ? 1 : 0)
 //@ define writeCount(self *slti, r RegisterType) = (self.rd == r ? 1 : 0)
 //@ define insType(self *slti) = Slti
+//@ define memReadCount(self *slti) = 0
+//@ define runPre(self *slti, ctx *Context, memory []int8) = wfZero(ctx, self.forward)
+//@ define readPre(self *slti, ctx *Context) = true
 //@ func (*slti).ReadRegisters
 //@   ensures len(result) == 1 && result[0] == op.rs
 //@   assigns nothing
@@ -1579,6 +1725,9 @@ package risc
 //@ define readCount(self *sltu, r RegisterType) = (self.rs1 == r ? 1 : 0) + (self.rs2 == r ? 1 : 0)
 //@ define writeCount(self *sltu, r RegisterType) = (self.rd == r ? 1 : 0)
 //@ define insType(self *sltu) = Sltu
+//@ define memReadCount(self *sltu) = 0
+//@ define runPre(self *sltu, ctx *Context, memory []int8) = wfZero(ctx, self.forward)
+//@ define readPre(self *sltu, ctx *Context) = true
 //@ func (*sltu).ReadRegisters
 //@   ensures len(result) == 2 && ((result[0] == op.rs1 && result[1] == op.rs2) || (result[0] == op.rs2 && result[1] == op.rs1))
 //@   assigns nothing
@@ -1609,6 +1758,9 @@ package risc
 //@ define readCount(self *sra, r RegisterType) = (self.rs1 == r ? 1 : 0) + (self.rs2 == r ? 1 : 0)
 //@ define writeCount(self *sra, r RegisterType) = (self.rd == r ? 1 : 0)
 //@ define insType(self *sra) = Sra
+//@ define memReadCount(self *sra) = 0
+//@ define runPre(self *sra, ctx *Context, memory []int8) = wfZero(ctx, self.forward)
+//@ define readPre(self *sra, ctx *Context) = true
 //@ func (*sra).ReadRegisters
 //@   ensures len(result) == 2 && ((result[0] == op.rs1 && result[1] == op.rs2) || (result[0] == op.rs2 && result[1] == op.rs1))
 //@   assigns nothing
@@ -1639,6 +1791,9 @@ package risc
 //@ define readCount(self *srai, r RegisterType) = (self.rs == r ? 1 : 0)
 //@ define writeCount(self *srai, r RegisterType) = (self.rd == r ? 1 : 0)
 //@ define insType(self *srai) = Srai
+//@ define memReadCount(self *srai) = 0
+//@ define runPre(self *srai, ctx *Context, memory []int8) = wfZero(ctx, self.forward)
+//@ define readPre(self *srai, ctx *Context) = true
 //@ func (*srai).ReadRegisters
 //@   ensures len(result) == 1 && result[0] == op.rs
 //@   assigns nothing
@@ -1669,6 +1824,9 @@ package risc
 //@ define readCount(self *srl, r RegisterType) = (self.rs1 == r ? 1 : 0) + (self.rs2 == r ? 1 : 0)
 //@ define writeCount(self *srl, r RegisterType) = (self.rd == r ? 1 : 0)
 //@ define insType(self *srl) = Srl
+//@ define memReadCount(self *srl) = 0
+//@ define runPre(self *srl, ctx *Context, memory []int8) = wfZero(ctx, self.forward)
+//@ define readPre(self *srl, ctx *Context) = true
 //@ func (*srl).ReadRegisters
 //@   ensures len(result) == 2 && ((result[0] == op.rs1 && result[1] == op.rs2) || (result[0] == op.rs2 && result[1] == op.rs1))
 //@   assigns nothing
@@ -1699,6 +1857,9 @@ package risc
 //@ define readCount(self *srli, r RegisterType) = (self.rs == r ? 1 : 0)
 //@ define writeCount(self *srli, r RegisterType) = (self.rd == r ? 1 : 0)
 //@ define insType(self *srli) = Srli
+//@ define memReadCount(self *srli) = 0
+//@ define runPre(self *srli, ctx *Context, memory []int8) = wfZero(ctx, self.forward)
+//@ define readPre(self *srli, ctx *Context) = true
 //@ func (*srli).ReadRegisters
 //@   ensures len(result) == 1 && result[0] == op.rs
 //@   assigns nothing
@@ -1729,6 +1890,9 @@ package risc
 //@ define readCount(self *sub, r RegisterType) = (self.rs1 == r ? 1 : 0) + (self.rs2 == r ? 1 : 0)
 //@ define writeCount(self *sub, r RegisterType) = (self.rd == r ? 1 : 0)
 //@ define insType(self *sub) = Sub
+//@ define memReadCount(self *sub) = 0
+//@ define runPre(self *sub, ctx *Context, memory []int8) = wfZero(ctx, self.forward)
+//@ define readPre(self *sub, ctx *Context) = true
 //@ func (*sub).ReadRegisters
 //@   ensures len(result) == 2 && ((result[0] == op.rs1 && result[1] == op.rs2) || (result[0] == op.rs2 && result[1] == op.rs1))
 //@   assigns nothing
@@ -1763,6 +1927,9 @@ package risc
 //@ define readCount(self *sw, r RegisterType) = (self.rd == r ? 1 : 0) + (self.rs == r ? 1 : 0)
 //@ define writeCount(self *sw, r RegisterType) = 0
 //@ define insType(self *sw) = Sw
+//@ define memReadCount(self *sw) = 0
+//@ define runPre(self *sw, ctx *Context, memory []int8) = wfZero(ctx, self.forward)
+//@ define readPre(self *sw, ctx *Context) = true
 //@ func (*sw).ReadRegisters
 //@   ensures len(result) == 2 && ((result[0] == op.rd && result[1] == op.rs) || (result[0] == op.rs && result[1] == op.rd))
 //@   assigns nothing
@@ -1798,6 +1965,9 @@ package risc
 //@ define readCount(self *xor, r RegisterType) = (self.rs1 == r ? 1 : 0) + (self.rs2 == r ? 1 : 0)
 //@ define writeCount(self *xor, r RegisterType) = (self.rd == r ? 1 : 0)
 //@ define insType(self *xor) = Xor
+//@ define memReadCount(self *xor) = 0
+//@ define runPre(self *xor, ctx *Context, memory []int8) = wfZero(ctx, self.forward)
+//@ define readPre(self *xor, ctx *Context) = true
 //@ func (*xor).ReadRegisters
 //@   ensures len(result) == 2 && ((result[0] == op.rs1 && result[1] == op.rs2) || (result[0] == op.rs2 && result[1] == op.rs1))
 //@   assigns nothing
@@ -1828,6 +1998,9 @@ package risc
 //@ define readCount(self *xori, r RegisterType) = (self.rs == r ? 1 : 0)
 //@ define writeCount(self *xori, r RegisterType) = (self.rd == r ? 1 : 0)
 //@ define insType(self *xori) = Xori
+//@ define memReadCount(self *xori) = 0
+//@ define runPre(self *xori, ctx *Context, memory []int8) = wfZero(ctx, self.forward)
+//@ define readPre(self *xori, ctx *Context) = true
 //@ func (*xori).ReadRegisters
 //@   ensures len(result) == 1 && result[0] == op.rs
 //@   assigns nothing
